@@ -14,7 +14,7 @@
                     lower bounds  the published front inequality of the property statement. *)
 From Coq Require Import Reals List ZArith.
 Import ListNotations.
-From PV Require Import Base.RList Gen.Problems Model.ProblemsRef Proofs.ProblemsProofs Proofs.ProblemsDTLZ.
+From PV Require Import Base.RList Gen.Problems Model.ProblemsRef Proofs.ProblemsProofs Proofs.ProblemsDTLZ Proofs.ProblemsUF Proofs.ProblemsWFG.
 Open Scope R_scope.
 
 (* ------------------------------------------------------------------ ZDT1-4, ZDT6: every n >= 2 (the constructors fix n = 30, 30, 30, 10, 10) *)
@@ -131,6 +131,20 @@ Theorem c18_dtlz4_lower : forall (M n : nat) x, (1 <= M)%nat -> (M - 1 <= n)%nat
   1 <= sumsq_of (DTLZ4_eval (Z.of_nat M) (Z.of_nat n) x).
 Proof. exact dtlz4_lower. Qed.
 
+(* the samplers' construction (distance variables = 1/2) gives g = 0: the front equation holds with equality *)
+Theorem c18_dtlz1_sampler_on_front : forall (M n : nat) x, (1 <= M)%nat -> (M - 1 <= n)%nat -> length x = n -> tail_at_half M x ->
+  sum_of (DTLZ1_eval (Z.of_nat M) (Z.of_nat n) x) = 1 / 2.
+Proof. exact dtlz1_sampler_on_front. Qed.
+Theorem c18_dtlz2_sampler_on_front : forall (M n : nat) x, (1 <= M)%nat -> (M - 1 <= n)%nat -> length x = n -> tail_at_half M x ->
+  sumsq_of (DTLZ2_eval (Z.of_nat M) (Z.of_nat n) x) = 1.
+Proof. exact dtlz2_sampler_on_front. Qed.
+Theorem c18_dtlz3_sampler_on_front : forall (M n : nat) x, (1 <= M)%nat -> (M - 1 <= n)%nat -> length x = n -> tail_at_half M x ->
+  sumsq_of (DTLZ3_eval (Z.of_nat M) (Z.of_nat n) x) = 1.
+Proof. exact dtlz3_sampler_on_front. Qed.
+Theorem c18_dtlz4_sampler_on_front : forall (M n : nat) x, (1 <= M)%nat -> (M - 1 <= n)%nat -> length x = n -> tail_at_half M x ->
+  sumsq_of (DTLZ4_eval (Z.of_nat M) (Z.of_nat n) x) = 1.
+Proof. exact dtlz4_sampler_on_front. Qed.
+
 Theorem c18_dtlz1_defined : forall (M n : nat) x, (1 <= M)%nat -> (M - 1 <= n)%nat -> length x = n -> DTLZ1_defined (Z.of_nat M) (Z.of_nat n) x.
 Proof. exact dtlz1_defined. Qed.
 Theorem c18_dtlz2_defined : forall (M n : nat) x, (1 <= M)%nat -> (M - 1 <= n)%nat -> length x = n -> DTLZ2_defined (Z.of_nat M) (Z.of_nat n) x.
@@ -150,3 +164,59 @@ Proof. exact dtlz7_out_length. Qed.
 Theorem c18_dtlz7_defined : forall (M n : nat) x, (1 <= M)%nat -> (M <= n)%nat -> length x = n -> in01 x ->
   DTLZ7_defined (Z.of_nat M) (Z.of_nat n) x.
 Proof. exact dtlz7_defined. Qed.
+
+(* ------------------------------------------------------------------ UF1-4, UF7 (CEC 2009): every n >= 3 (constructor default n = 30).
+   The generated evaluate is a fold over j = 2..n with accumulators (sum1, count1, sum2, count2[, prod1, prod2]). *)
+Theorem c18_uf1_gen_eq_ref : forall (n : nat) x, (3 <= n)%nat -> length x = n -> UF1_eval 2 (Z.of_nat n) x = uf1_ref x.
+Proof. exact uf1_gen_eq_ref. Qed.
+Theorem c18_uf2_gen_eq_ref : forall (n : nat) x, (3 <= n)%nat -> length x = n -> UF2_eval 2 (Z.of_nat n) x = uf2_ref x.
+Proof. exact uf2_gen_eq_ref. Qed.
+Theorem c18_uf3_gen_eq_ref : forall (n : nat) x, (3 <= n)%nat -> length x = n -> UF3_eval 2 (Z.of_nat n) x = uf3_ref x.
+Proof. exact uf3_gen_eq_ref. Qed.
+Theorem c18_uf4_gen_eq_ref : forall (n : nat) x, (3 <= n)%nat -> length x = n -> UF4_eval 2 (Z.of_nat n) x = uf4_ref x.
+Proof. exact uf4_gen_eq_ref. Qed.
+Theorem c18_uf7_gen_eq_ref : forall (n : nat) x, (3 <= n)%nat -> length x = n -> UF7_eval 2 (Z.of_nat n) x = uf7_ref x.
+Proof. exact uf7_gen_eq_ref. Qed.
+
+Theorem c18_uf1_out_length : forall (n : nat) x, (3 <= n)%nat -> length x = n -> length (UF1_eval 2 (Z.of_nat n) x) = 2%nat.
+Proof. exact uf1_out_length. Qed.
+Theorem c18_uf2_out_length : forall (n : nat) x, (3 <= n)%nat -> length x = n -> length (UF2_eval 2 (Z.of_nat n) x) = 2%nat.
+Proof. exact uf2_out_length. Qed.
+Theorem c18_uf3_out_length : forall (n : nat) x, (3 <= n)%nat -> length x = n -> length (UF3_eval 2 (Z.of_nat n) x) = 2%nat.
+Proof. exact uf3_out_length. Qed.
+Theorem c18_uf4_out_length : forall (n : nat) x, (3 <= n)%nat -> length x = n -> length (UF4_eval 2 (Z.of_nat n) x) = 2%nat.
+Proof. exact uf4_out_length. Qed.
+Theorem c18_uf7_out_length : forall (n : nat) x, (3 <= n)%nat -> length x = n -> length (UF7_eval 2 (Z.of_nat n) x) = 2%nat.
+Proof. exact uf7_out_length. Qed.
+
+(* f2 >= front(f1): UF1-3 front f2 = 1 - sqrt f1; UF4 front f2 = 1 - f1^2 (needs x_1 >= 0, which the box gives); UF7 front f2 = 1 - f1 *)
+Theorem c18_uf1_front : forall (n : nat) x, (3 <= n)%nat -> length x = n ->
+  1 - sqrt (nth 0 (UF1_eval 2 (Z.of_nat n) x) 0) <= nth 1 (UF1_eval 2 (Z.of_nat n) x) 0.
+Proof. exact uf1_front. Qed.
+Theorem c18_uf2_front : forall (n : nat) x, (3 <= n)%nat -> length x = n ->
+  1 - sqrt (nth 0 (UF2_eval 2 (Z.of_nat n) x) 0) <= nth 1 (UF2_eval 2 (Z.of_nat n) x) 0.
+Proof. exact uf2_front. Qed.
+Theorem c18_uf3_front : forall (n : nat) x, (3 <= n)%nat -> length x = n ->
+  1 - sqrt (nth 0 (UF3_eval 2 (Z.of_nat n) x) 0) <= nth 1 (UF3_eval 2 (Z.of_nat n) x) 0.
+Proof. exact uf3_front. Qed.
+Theorem c18_uf4_front : forall (n : nat) x, (3 <= n)%nat -> length x = n -> 0 <= X x 0 ->
+  1 - nth 0 (UF4_eval 2 (Z.of_nat n) x) 0 ^ 2 <= nth 1 (UF4_eval 2 (Z.of_nat n) x) 0.
+Proof. exact uf4_front. Qed.
+Theorem c18_uf7_front : forall (n : nat) x, (3 <= n)%nat -> length x = n ->
+  1 - nth 0 (UF7_eval 2 (Z.of_nat n) x) 0 <= nth 1 (UF7_eval 2 (Z.of_nat n) x) 0.
+Proof. exact uf7_front. Qed.
+
+(* ------------------------------------------------------------------ WFG4-9 shape stage (_WFG4_shape, _concave, _calculate_x, _create_A,
+   _WFG_calculate_f, _calculate_f, _correct_to_01), every M >= 1, GIVEN the transformed vector t in [0,1]^M.
+   FULL STATEMENT NOT PROVED (kept visible):
+     forall M z, z in-bounds (0 <= z_i <= 2i) -> 1 <= wfg_scaled_sumsq (WFGk_eval M z)   for k = 4..9
+   missing: the WFG evaluate methods/transformations (map + functools.partial) are outside the translated subset, and the
+   range lemmas "every transformation maps [0,1] into [0,1]" are not proved; the oracle checks the inequality on the real code. *)
+Theorem c18_wfg4_shape_gen_eq_ref : forall t, (1 <= length t)%nat -> in01 t -> fn_WFG4_shape_eval t = wfg4_shape_ref t.
+Proof. exact wfg4_shape_gen_eq_ref. Qed.
+Theorem c18_wfg4_shape_out_length : forall t, (1 <= length t)%nat -> in01 t -> length (fn_WFG4_shape_eval t) = length t.
+Proof. exact wfg4_shape_out_length. Qed.
+Theorem c18_wfg_concave_sumsq : forall t, (1 <= length t)%nat -> big_sum (fun m0 => wfg_concave (length t) t m0 ^ 2) (length t) = 1.
+Proof. exact concave_sumsq. Qed.
+Theorem c18_wfg_lower_partial : forall t, (1 <= length t)%nat -> in01 t -> 1 <= wfg_scaled_sumsq (fn_WFG4_shape_eval t).
+Proof. exact wfg_lower_partial. Qed.
